@@ -128,7 +128,7 @@ pub fn run_range_stream(rep: &mut Report, p: &Params, inputs: &[In], allow_inval
             }
             return judged;
         }
-        if rep.wants_sample() && t == (2 * n + 3).min(inputs.len()) {
+        if rep.wants_sample() && t == n.saturating_mul(2).saturating_add(3).min(inputs.len()) {
             rep.sample(json!({"indicator": p.label(), "t": t, "last_input": x.to_json(), "observed": out.to_json(), "range": [lo, hi], "slack": slack}));
         }
     }
@@ -207,6 +207,14 @@ fn run_bars(ctx: &Ctx) -> Report {
         let len = rng.range(30, maxlen);
         let base = *rng.pick(&[1e-2, 1.0, 50.0, 1e4]);
         let mut bars: Vec<Bar> = BarGen::new(BAR_STYLES[idx % BAR_STYLES.len()], base, rng.u64()).take(len);
+        if idx % 6 == 3 {
+            // other units: prices and volumes both tiny (money flows ~1e-16 and below) or both huge
+            let (pf, vf) = *rng.pick(&[(1e-8, 1e-8), (1e-9, 1e-7), (1e-12, 1e-6), (1e6, 1e6)]);
+            for b in bars.iter_mut() {
+                *b = Bar { v: b.v * vf, ..b.scale_prices(pf) };
+            }
+            rep.count("bar.streams_in_tiny_or_huge_units");
+        }
         let inject_invalid = idx % 5 == 4;
         if inject_invalid {
             for b in bars.iter_mut() {
@@ -233,8 +241,26 @@ fn run_bars(ctx: &Ctx) -> Report {
     })
 }
 
+fn run_huge_periods(ctx: &Ctx) -> Report {
+    let jobs = crate::common::huge_period_params();
+    let seed = ctx.seed;
+    par_run(jobs, ctx.threads, move |p, rep| {
+        if !KINDS.contains(&p.kind) || Inst::try_new(p).is_err() {
+            return;
+        }
+        let mut rng = Rng::derive(seed, 0xC07E, p.p[0] as u64 ^ p.p[1] as u64);
+        let xs = BandGen::new(BAND_REGIMES[rng.below(BAND_REGIMES.len())], 1.0, rng.u64()).take(400);
+        let inputs: Vec<In> = xs.iter().map(|x| In::S(*x)).collect();
+        run_range_stream(rep, p, &inputs, false);
+        rep.count("huge_period_streams");
+    })
+}
+
 pub fn run(ctx: &Ctx) -> Report {
     let mut rep = Report::new();
+    if ctx.phase_enabled("huge") {
+        rep.merge(run_huge_periods(ctx));
+    }
     if ctx.phase_enabled("scalar") {
         rep.merge(run_scalar(ctx));
     }
